@@ -829,6 +829,28 @@ def rule_histories(repo, chk, want):
         if minf:
             run_history(owner, label, add, [], remove, minf, records_gone=True)
     run_history("_node_reg", "tank", ("add_tank", (USER,), {}), [setter("vol_curve_name", "VOL_A")], "remove_node", (("_curve_reg", 1),), records_gone=True)
+    # ---- (c') a curve whose typed view was filed by its USERS (set_curve_type on assignment), not by its own curve_type
+    def used_and_released(what, add_user, remove_user):
+        return ("used by %s that is removed again" % what, lambda lw, e: (lw.call(lw.wn, add_user[0], *add_user[1], **add_user[2]), lw.call(lw.wn, remove_user, add_user[1][0])))
+    users = [("a HEAD pump", ("add_pump", ("U1", "N1", "N2"), dict(pump_type="HEAD", pump_parameter=USER)), "remove_link"),
+             ("a GPV", ("add_valve", ("U1", "N1", "N2"), dict(valve_type="GPV", initial_setting=USER)), "remove_link"),
+             ("a tank", ("add_tank", ("U1",), dict(vol_curve=USER)), "remove_node")]
+    for ctype in (None, "EFFICIENCY"):
+        for what, add_user, remove_user in users:
+            lw_probe = LinkWorld(repo)
+            attempt("add_curve", lambda: lw_probe.call(lw_probe.wn, "add_curve", USER, ctype, [(0.0, 40.0), (0.05, 30.0), (0.1, 10.0)]))
+            before_ = set(lw_probe.views_holding(USER, lw_probe.regs["_curve_reg"]))
+            try:
+                lw_probe.call(lw_probe.wn, add_user[0], *add_user[1], **add_user[2])
+            except ProgramError as e_:
+                if isinstance(e_.exc, (ValueError, RuntimeError)):
+                    continue      # the API refuses this curve for this kind of user (add_tank wants a VOLUME curve)
+                raise ExtractError("C14 history %s: the interpreted program raised %s" % (add_user[0], e_))
+            filed_by_user = set(lw_probe.views_holding(USER, lw_probe.regs["_curve_reg"])) - before_
+            if not filed_by_user:
+                continue          # this kind of user does not file the curve in a typed view: nothing to release
+            run_history("_curve_reg", "%s curve" % (ctype or "untyped"), ("add_curve", (USER, ctype, [(0.0, 40.0), (0.05, 30.0), (0.1, 10.0)]), {}),
+                        [used_and_released(what, add_user, remove_user)], "remove_curve", ())
     chk.note("C14 histories: link classes created through the public API: %s; concrete classes of the Link hierarchy: %s" % (sorted(covered), leaves))
     chk.floor("R-C14-8", 30)
     chk.floor("R-C14-3", 30)
